@@ -76,6 +76,12 @@ class TxIds(Family):
         for mut in (False, True):
             t = C.lib_tx(m, mutable=mut, witobj=mode)
             what = 'mutable' if mut else 'immutable'
+            if case['set'] == {} or len(case['set']) == 1:
+                # rarely used parameters first: a stripped serialisation / a weight computation must not influence
+                # the identifiers reported afterwards
+                t.serialize(dict(include_witness=False))
+                if m['vout']:
+                    t.calc_weight()
             for rep in (0, 1):      # twice: the immutable class caches
                 if t.GetTxid() != txid:
                     raise Viol('%s GetTxid() is not sha256d of the witness-stripped serialisation' % what, txid, t.GetTxid())
@@ -196,6 +202,12 @@ class BlockIds(Family):
         hdr80 = W.encode_header(b)
         want = W.sha256d(hdr80)
         blk = C.lib_block(b)
+        blk_h = C.lib_block(b)
+        hash(blk_h)                          # hash() before GetHash(): the block hash is still the header hash
+        blk_h.serialize(dict(include_witness=False))
+        blk_h.GetWeight()
+        if blk_h.GetHash() != want:
+            raise Viol('CBlock.GetHash() after hash() / stripped serialisation / GetWeight() is not sha256d of the header', want, blk_h.GetHash())
         for rep in (0, 1):
             if blk.GetHash() != want:
                 raise Viol('constructed CBlock.GetHash() is not sha256d of its 80-byte header', want, blk.GetHash())
